@@ -29,11 +29,81 @@ R.contract("Node.remove_peer_connection", params={"self": "Node", "conn": "PeerC
                      "dict:self._half_ready_connections", "dict:self._peer_waiting_answer",
                      "*Peer.connection", "*Peer.last_disconnect", "*Peer.disconnect_reason", "*Event.flag", "*list:Peer"],
            props=["C13", "C12", "C19", "C09", "C07"])
-R.loop("Node.remove_peer_connection", 0, invariants=[("t", "True")], modifies=["dict:app_list", "*list:Peer"])
-R.loop("Node.remove_peer_connection", 1, invariants=[("t", "True")], modifies=["dict:app_list", "*list:Peer"])
-R.loop("Node.remove_peer_connection", 2, invariants=[("t", "True")], modifies=["*Event.flag"],
+R.model("Event", fields={"g_owner": "Any"})
+
+
+@R.specfn("event_owned")
+def _event_owned(ex, st, app):
+    """instance of the object invariant `app.is_ready.g_owner == app` (ground obligation C13.own: is_ready is assigned
+    once, in Application.__init__, to a new Event): distinct applications have distinct ready events"""
+    from pyvc.smt import Eq
+    app = ex.unwrap(app)
+    ev = ex.read_field(st, app, "is_ready")
+    return _VB(Eq(ex.read_field(st, ev, "g_owner").t, app.t))
+
+
+@R.specfn("vals_new_and_distinct")
+def _vals_new_and_distinct(ex, st, d):
+    """every value of a (local) table of lists was allocated after function entry, and distinct keys hold distinct
+    lists: two quantified facts over the table's domain/value arrays (z3 proves their preservation by instantiation)"""
+    from pyvc.smt import T, BOOL, select
+    d = ex.unwrap(d)
+    ks, dom, vals = ex._dict_keys(d)
+    from pyvc.smt import arr
+    domt = select(ex.heap_array(st, dom, "Int", arr(ks, "Bool")), d.t)
+    valt = select(ex.heap_array(st, vals[0][0], "Int", arr(ks, vals[0][1])), d.t)
+    a0 = ex.entry_state.alloc.s
+    f1 = f"(forall ((k!q {ks})) (=> (select {domt.s} k!q) (and (<= {a0} (select {valt.s} k!q)) (< (select {valt.s} k!q) {st.alloc.s}))))"
+    f2 = (f"(forall ((k!q1 {ks}) (k!q2 {ks})) (=> (and (select {domt.s} k!q1) (select {domt.s} k!q2) (not (= k!q1 k!q2))) "
+          f"(not (= (select {valt.s} k!q1) (select {valt.s} k!q2)))))")
+    return _VB(T(f"(and {f1} {f2})", BOOL))
+
+
+@R.specfn("entry_allocated")
+def _entry_allocated(ex, st, v):
+    """heap closure at function entry: a reference read from the entry heap denotes an object allocated before entry.
+    Only meaningful in entry_facts (where the expression is evaluated in the entry state)."""
+    from pyvc.smt import And, Lt, I
+    v = ex.unwrap(v)
+    return _VB(And(Lt(I(0), v.t), Lt(v.t, (ex.entry_state or st).alloc)))
+
+
+R.macro("peer_ready", ["p"], "not is_none(p.connection) and (some(p.connection).state == %d or some(p.connection).state == %d)"
+        % (READY, READY_WAITING_DWA))
+_RP_GHOST = {"r": "str", "w": "Any:routekey", "p": "Peer", "w2": "Any:routekey"}
+R.contracts["Node.remove_peer_connection"].ghost.update({k: __import__("pyvc.values", fromlist=["parse_kind"]).parse_kind(v)
+                                                         for k, v in _RP_GHOST.items()})
+R.contracts["Node.remove_peer_connection"].entry_facts.append(
+    "implies(r in self._peer_routes and w in routes(self, r), entry_allocated(routes(self, r)[w]))")
+R.contracts["Node.remove_peer_connection"].ensures.append(__import__("pyvc.spec", fromlist=["Clause"]).Clause(
+    "an-application-with-a-ready-configured-peer-stays-ready",
+    "implies(route_peer(self, r, w, p) and peer_ready(p), as_app(w).is_ready.flag == old(as_app(w).is_ready.flag))"))
+_AL_FRESH = ("collected-lists-are-new-and-distinct", "vals_new_and_distinct(app_list)")
+_AL_ROUTES = ("route-lists-untouched", "implies(r in self._peer_routes and w in routes(self, r), "
+                                       "items(routes(self, r)[w]) == old(items(routes(self, r)[w])))")
+_AL_FLAG0 = ("flags-untouched-so-far", "as_app(w).is_ready.flag == old(as_app(w).is_ready.flag)")
+R.loop("Node.remove_peer_connection", 0,
+       invariants=[_AL_FRESH, _AL_ROUTES, _AL_FLAG0,
+                   ("peers-of-visited-realms-collected",
+                    "implies(r in done0 and route_peer(self, r, w, p), w in app_list and p in items(app_list[w]))")],
+       modifies=["dict:app_list", "*list:Peer"])
+R.loop("Node.remove_peer_connection", 1,
+       invariants=[_AL_FRESH, _AL_ROUTES, _AL_FLAG0,
+                   ("peers-of-visited-realms-collected",
+                    "implies(r in done0 and route_peer(self, r, w, p), w in app_list and p in items(app_list[w]))"),
+                   ("peers-of-visited-apps-collected",
+                    "implies(cur0 == r and w in done1 and route_peer(self, r, w, p), w in app_list and p in items(app_list[w]))")],
+       modifies=["dict:app_list", "*list:Peer"])
+_KEEP = ("an-application-with-a-ready-collected-peer-keeps-its-flag",
+         "implies(w in app_list and is_app(w) and p in items(app_list[w]) and peer_ready(p), "
+         "as_app(w).is_ready.flag == old(as_app(w).is_ready.flag))")
+R.loop("Node.remove_peer_connection", 2, invariants=[_KEEP], modifies=["*Event.flag"],
+       hints=["event_owned(as_app(cur))", "event_owned(as_app(w))"],
        local_kinds={"any_peer_ready": "bool"})
-R.loop("Node.remove_peer_connection", 3, invariants=[("t", "True")], local_kinds={"any_peer_ready": "bool"})
+R.loop("Node.remove_peer_connection", 3,
+       invariants=[_KEEP, ("none-ready-so-far", "not any_peer_ready"),
+                   ("visited-peers-not-ready", "implies(p in done3, not peer_ready(p))")],
+       local_kinds={"any_peer_ready": "bool"})
 
 R.contract("Node._generate_connection_id", trusted=True, params={"self": "Node", "cur_iteration": "int"}, returns="str",
            ensures=["not (result in self.connections)"], raises=[Raise("RuntimeError", "True", "may")], pure=True,
@@ -87,17 +157,39 @@ R.contract("Node._assign_peer_connection", params={"self": "Node", "conn": "Peer
 R.contract("Node._flag_peer_as_connected", params={"self": "Node", "conn": "PeerConnection"},
            ensures=[("connected", "conn.state == %d" % CONNECTED)],
            modifies=["conn.state", "*Peer.last_connect"], props=["C13", "C06"])
+R.macro("route_peer", ["n", "r", "w", "p"],
+        "r in n._peer_routes and w in routes(n, r) and is_app(w) and p in items(routes(n, r)[w])")
 R.contract("Node._flag_connection_as_ready", params={"self": "Node", "conn": "PeerConnection"},
-           ghost={"a": "Application"},
+           ghost={"a": "Application", "r": "str", "w": "Any:routekey", "p": "Peer"},
            ensures=[("ready", "conn.state == %d" % READY),
-                    ("only-sets-ready-flags", "implies(old(a.is_ready.flag), a.is_ready.flag)")],
-           modifies=["conn.state", "*Event.flag"], props=["C13", "C06"],
-           note="the clause 'an application whose configured peer got this connection becomes ready' needs a three-level "
-                "nested loop invariant and is NOT decided here")
-for _i in range(3):
-    R.loop("Node._flag_connection_as_ready", _i,
-           invariants=[("state", "conn.state == %d" % READY), ("monotone", "implies(old(a.is_ready.flag), a.is_ready.flag)")],
-           modifies=["*Event.flag"])
+                    ("only-sets-ready-flags", "implies(old(a.is_ready.flag), a.is_ready.flag)"),
+                    ("an-application-whose-configured-peer-got-this-connection-reports-ready",
+                     "implies(route_peer(self, r, w, p) and p.connection == conn, as_app(w).is_ready.flag)")],
+           modifies=["conn.state", "*Event.flag"], props=["C13", "C06"])
+_MONO = ("monotone", "implies(old(a.is_ready.flag), a.is_ready.flag)")
+_STATE = ("state", "conn.state == %d" % READY)
+R.loop("Node._flag_connection_as_ready", 0,
+       invariants=[_STATE, _MONO,
+                   ("visited-realms-done", "implies(r in done0 and route_peer(self, r, w, p) and p.connection == conn, "
+                                           "as_app(w).is_ready.flag)")],
+       modifies=["*Event.flag"])
+R.loop("Node._flag_connection_as_ready", 1,
+       invariants=[_STATE, _MONO,
+                   ("visited-realms-done", "implies(r in done0 and route_peer(self, r, w, p) and p.connection == conn, "
+                                           "as_app(w).is_ready.flag)"),
+                   ("visited-apps-of-this-realm-done",
+                    "implies(cur0 == r and w in done1 and route_peer(self, r, w, p) and p.connection == conn, "
+                    "as_app(w).is_ready.flag)")],
+       modifies=["*Event.flag"])
+R.loop("Node._flag_connection_as_ready", 2,
+       invariants=[_STATE, _MONO,
+                   ("visited-realms-done", "implies(r in done0 and route_peer(self, r, w, p) and p.connection == conn, "
+                                           "as_app(w).is_ready.flag)"),
+                   ("visited-apps-of-this-realm-done",
+                    "implies(cur0 == r and w in done1 and route_peer(self, r, w, p) and p.connection == conn, "
+                    "as_app(w).is_ready.flag)"),
+                   ("no-visited-peer-has-this-connection", "implies(p in done2, p.connection != conn)")],
+       modifies=["*Event.flag"])
 
 del R.contracts["Node.close_connection_socket"]
 R.contract("Node.close_connection_socket", params={"self": "Node", "conn": "PeerConnection", "disconnect_reason": "int"},
